@@ -206,6 +206,12 @@ def run_property(prop, tier='quick', seed=0, out=sys.stdout):
             by_solver[r['solver']] = by_solver.get(r['solver'], 0) + 1
         elif r['verdict'] == 'disagree':
             errors.append(f"solver disagreement on {o['name']}: {r['solver']}")
+        elif r['verdict'] in ('sat', 'candidate') and re.match(r'^pre:.*:inv:', o['name']):
+            # a callee that was verified under a class / heap invariant is called where that invariant does not (provably) hold:
+            # its contract cannot be relied on at this site.  That is a gap in the proof ("needs contract"), not by itself a
+            # violation of the property: undecided (the bounded fallback then runs the real code)
+            r['log'] = list(r.get('log') or []) + [('classification', 'callee invariant not established at the call site: proof gap, not a property violation', 0)]
+            undecided.append(o)
         elif r['verdict'] in ('sat', 'candidate'):
             violated.append(o)
         else:
